@@ -1,5 +1,5 @@
 /- C06 helper lemmas, part 4: the soundness induction. -/
-import MxlVerif.Lemmas.C06Sound
+import MxlVerif.Lemmas.C06Imp
 namespace Mxl.C06
 
 theorem All2.imp {α β} {R S : α → β → Prop} (h : ∀ a b, R a b → S a b) :
@@ -39,20 +39,20 @@ theorem args_vals (P : Prog) (G L env) (ρ : SEnv) : ∀ (g : Nat) (es : List Py
 
 /-- the statements proved together, for translator fuel `f` -/
 structure Sound (T : Tables) (P : Prog) (f : Nat) : Prop where
-  expr : ∀ G L ctx env ρ e s, trExpr T P f G ctx e = .ok s → Agree ctx env ρ → DomL ctx L →
+  expr : ∀ G I L ctx env ρ e s, trExpr T P f G I ctx e = .ok s → Agree ctx env ρ → DomL ctx L → ImpOk I env L →
     ∀ f2 v, evalExpr P f2 G L env e = some v → evalS ρ s = some v
-  args : ∀ G L ctx env ρ es ss, trArgs T P f G ctx es = .ok ss → Agree ctx env ρ → DomL ctx L →
+  args : ∀ G I L ctx env ρ es ss, trArgs T P f G I ctx es = .ok ss → Agree ctx env ρ → DomL ctx L → ImpOk I env L →
     All2 (fun e s => ∀ f2 v, evalExpr P f2 G L env e = some v → evalS ρ s = some v) es ss
-  loop : ∀ G L body pieces rem isElif ctx env ρ s ctx',
-    trLoop T P f G body pieces rem isElif ctx = .ok (s, ctx') →
-    Agree ctx env ρ → DomL ctx L → (∀ x ∈ bodyAssigned rem, L.contains x = true) →
+  loop : ∀ G I L body pieces rem isElif ctx env ρ s ctx',
+    trLoop T P f G I body pieces rem isElif ctx = .ok (s, ctx') →
+    Agree ctx env ρ → DomL ctx L → ImpOk I env L → (∀ x ∈ bodyAssigned rem, L.contains x = true) →
     (∀ p ∈ pieces, evalS ρ p.2 = some (.bool false)) →
     ∀ f2 v, execBody P f2 G L env rem = some (.ret v) → evalS ρ s = some v
   /-- a body of plain assignments that falls through: the result is the last assigned name's value and the final
   context describes the final environment -/
-  fall : ∀ G L body rem isElif ctx env ρ s ctx',
-    trLoop T P f G body [] rem isElif ctx = .ok (s, ctx') → allAssign rem = true →
-    Agree ctx env ρ → DomL ctx L → (∀ x ∈ bodyAssigned rem, L.contains x = true) →
+  fall : ∀ G I L body rem isElif ctx env ρ s ctx',
+    trLoop T P f G I body [] rem isElif ctx = .ok (s, ctx') → allAssign rem = true →
+    Agree ctx env ρ → DomL ctx L → ImpOk I env L → (∀ x ∈ bodyAssigned rem, L.contains x = true) →
     ∀ f2 env', execBody P f2 G L env rem = some (.fall env') →
     Agree ctx' env' ρ ∧ ∃ n, lastAssigned body = some n ∧ List.lookup n ctx' = some s
   fnPlain : ∀ d margs s, fnToSympy T P f d margs = .ok s → (margs = none ∨ margs = some []) →
@@ -122,9 +122,9 @@ section step
 variable {T : Tables} {P : Prog} {f : Nat}
 
 theorem sound_expr (hT : TablesOk T) (ih : Sound T P f) :
-    ∀ G L ctx env ρ e s, trExpr T P (f+1) G ctx e = .ok s → Agree ctx env ρ → DomL ctx L →
+    ∀ G I L ctx env ρ e s, trExpr T P (f+1) G I ctx e = .ok s → Agree ctx env ρ → DomL ctx L → ImpOk I env L →
     ∀ f2 v, evalExpr P f2 G L env e = some v → evalS ρ s = some v := by
-  intro G L ctx env ρ e s h hag hdl f2 v hpy
+  intro G I L ctx env ρ e s h hag hdl hi f2 v hpy
   cases f2 with
   | zero => simp [evalExpr] at hpy
   | succ g =>
@@ -140,14 +140,22 @@ theorem sound_expr (hT : TablesOk T) (ih : Sound T P f) :
       cases h
       have hL := hdl n _ hc
       rw [if_pos hL] at hpy
-      obtain ⟨s', hs', hv⟩ := hag n v hpy
-      rw [hc] at hs'; cases hs'; exact hv
+      split at hpy
+      · cases hpy
+      · rename_i hno
+        rcases hag n v hpy with ⟨g, hg⟩ | ⟨s', hs', hv⟩
+        · subst hg; exact absurd hpy (hno g)
+        · rw [hc] at hs'; cases hs'; exact hv
     | none =>
       rw [hc] at h
       by_cases hL : L.contains n = true
       · rw [if_pos hL] at hpy
-        obtain ⟨s', hs', _⟩ := hag n v hpy
-        rw [hc] at hs'; cases hs'
+        split at hpy
+        · cases hpy
+        · rename_i hno
+          rcases hag n v hpy with ⟨g, hg⟩ | ⟨s', hs', _⟩
+          · subst hg; exact absurd hpy (hno g)
+          · rw [hc] at hs'; cases hs'
       · rw [if_neg hL] at hpy
         cases hg : List.lookup n G with
         | none => simp [hg] at h
@@ -156,10 +164,11 @@ theorem sound_expr (hT : TablesOk T) (ih : Sound T P f) :
           cases gv <;> simp at h hpy <;> subst h <;> subst hpy <;> simp [evalS]
   | attr p =>
     rw [trExpr] at h; rw [evalExpr] at hpy
-    cases hg : List.lookup p G with
-    | none => simp [hg] at h
+    cases hg : pyAttr G L env p with
+    | none => simp [hg] at hpy
     | some gv =>
-      rw [hg] at h hpy
+      rw [pyAttr_tr hi hg] at h
+      rw [hg] at hpy
       cases gv <;> simp at h hpy <;> subst h <;> subst hpy <;> simp [evalS]
   | un op a =>
     rw [trExpr] at h; rw [evalExpr] at hpy
@@ -168,10 +177,11 @@ theorem sound_expr (hT : TablesOk T) (ih : Sound T P f) :
     cases ha : evalExpr P g G L env a with
     | none => simp [ha] at hpy
     | some va =>
-      have hva := ih.expr _ _ _ _ _ _ _ hsa hag hdl _ _ ha
+      have hva := ih.expr _ _ _ _ _ _ _ _ hsa hag hdl hi _ _ ha
       rw [ha] at hpy
       cases va with
       | bool _ => simp at hpy
+      | obj _ => simp at hpy
       | num x =>
         simp only at hpy
         cases hl : List.lookup op T.unops with
@@ -200,14 +210,16 @@ theorem sound_expr (hT : TablesOk T) (ih : Sound T P f) :
       cases hb : evalExpr P g G L env b with
       | none => rw [ha, hb] at hpy; cases va <;> simp at hpy
       | some vb =>
-        have hva := ih.expr _ _ _ _ _ _ _ hsa hag hdl _ _ ha
-        have hvb := ih.expr _ _ _ _ _ _ _ hsb hag hdl _ _ hb
+        have hva := ih.expr _ _ _ _ _ _ _ _ hsa hag hdl hi _ _ ha
+        have hvb := ih.expr _ _ _ _ _ _ _ _ hsb hag hdl hi _ _ hb
         rw [ha, hb] at hpy
         cases va with
         | bool _ => simp at hpy
+        | obj _ => simp at hpy
         | num x =>
           cases vb with
           | bool _ => simp at hpy
+          | obj _ => simp at hpy
           | num y =>
             simp only at hpy
             cases hl : List.lookup op T.binops with
@@ -235,16 +247,17 @@ theorem sound_expr (hT : TablesOk T) (ih : Sound T P f) :
     cases hl : evalExpr P g G L env l with
     | none => simp [hl] at hpy
     | some vl =>
-      have hvl := ih.expr _ _ _ _ _ _ _ hleft hag hdl _ _ hl
+      have hvl := ih.expr _ _ _ _ _ _ _ _ hleft hag hdl hi _ _ hl
       rw [hl] at hpy
       cases vl with
       | bool _ => simp at hpy
+      | obj _ => simp at hpy
       | num x =>
         simp only at hpy
         split at hpy
         · cases hpy
         · rename_i hne
-          have hall := ih.args _ _ _ _ _ _ _ hrights hag hdl
+          have hall := ih.args _ _ _ _ _ _ _ _ hrights hag hdl hi
           have hall' : All2 (fun e s => ∀ v, evalExpr P g G L env e = some v → evalS ρ s = some v) rs rights :=
             All2.imp (fun e s hh v hv => hh g v hv) hall
           obtain ⟨c, cs', hcs', hres⟩ := cmp_sound hT ρ _ ops rs rights left x cs v hall' hvl
@@ -271,7 +284,7 @@ theorem sound_expr (hT : TablesOk T) (ih : Sound T P f) :
     cases hc : evalExpr P g G L env c with
     | none => simp [hc] at hpy
     | some cv =>
-      have hvc := ih.expr _ _ _ _ _ _ _ hcond hag hdl _ _ hc
+      have hvc := ih.expr _ _ _ _ _ _ _ _ hcond hag hdl hi _ _ hc
       rw [hc] at hpy
       simp only at hpy
       obtain ⟨b, hb⟩ := boolSorted_val hbs' hvc
@@ -280,13 +293,13 @@ theorem sound_expr (hT : TablesOk T) (ih : Sound T P f) :
       | true =>
         simp only [truthy, ↓reduceIte] at hpy
         rw [evalS_pwOf_hit ρ _ _ _ hvc]
-        exact ih.expr _ _ _ _ _ _ _ htt hag hdl _ _ hpy
+        exact ih.expr _ _ _ _ _ _ _ _ htt hag hdl hi _ _ hpy
       | false =>
         simp only [truthy, Bool.false_eq_true, ↓reduceIte] at hpy
         have := evalS_pwOf_skip ρ [(tt, cond)] [(ee, .boolLit true)] (by simpa using hvc)
         simp only [List.cons_append, List.nil_append] at this
         rw [this, evalS_pwOf_hit ρ _ _ _ (by simp [evalS])]
-        exact ih.expr _ _ _ _ _ _ _ hee hag hdl _ _ hpy
+        exact ih.expr _ _ _ _ _ _ _ _ hee hag hdl hi _ _ hpy
   | call tgt args =>
     rw [trExpr] at h; rw [evalExpr] at hpy
     rw [bind_ok] at h
@@ -296,12 +309,12 @@ theorem sound_expr (hT : TablesOk T) (ih : Sound T P f) :
     | some vs =>
       rw [ha] at hpy
       simp only at hpy
-      have hall := ih.args _ _ _ _ _ _ _ hsargs hag hdl
+      have hall := ih.args _ _ _ _ _ _ _ _ hsargs hag hdl hi
       have hvals := args_vals P G L env ρ g args sargs vs hall ha
-      by_cases hL : L.contains tgt = true
-      · rw [if_pos hL] at hpy; cases hpy
-      rw [if_neg hL] at hpy
-      generalize resolveCall G tgt = tgt' at h hpy
+      by_cases hres : pyResolve G L env tgt = .unresolved
+      · rw [hres] at hpy; simp at hpy
+      rw [pyResolve_tr hi hres] at h
+      generalize pyResolve G L env tgt = tgt' at h hpy
       cases tgt' with
       | unresolved => simp at h
       | known key =>
@@ -344,9 +357,9 @@ theorem sound_expr (hT : TablesOk T) (ih : Sound T P f) :
     rw [trExpr] at h; cases h
 
 theorem sound_args (ih : Sound T P f) :
-    ∀ G L ctx env ρ es ss, trArgs T P (f+1) G ctx es = .ok ss → Agree ctx env ρ → DomL ctx L →
+    ∀ G I L ctx env ρ es ss, trArgs T P (f+1) G I ctx es = .ok ss → Agree ctx env ρ → DomL ctx L → ImpOk I env L →
     All2 (fun e s => ∀ f2 v, evalExpr P f2 G L env e = some v → evalS ρ s = some v) es ss := by
-  intro G L ctx env ρ es ss h hag hdl
+  intro G I L ctx env ρ es ss h hag hdl hi
   cases es with
   | nil => rw [trArgs] at h; cases h; exact .nil
   | cons a as =>
@@ -357,8 +370,8 @@ theorem sound_args (ih : Sound T P f) :
     obtain ⟨ss', hss, h⟩ := h
     rw [pure_ok] at h
     subst h
-    exact .cons (fun f2 v hv => ih.expr _ _ _ _ _ _ _ hs hag hdl f2 v hv)
-      (ih.args _ _ _ _ _ _ _ hss hag hdl)
+    exact .cons (fun f2 v hv => ih.expr _ _ _ _ _ _ _ _ hs hag hdl hi f2 v hv)
+      (ih.args _ _ _ _ _ _ _ _ hss hag hdl hi)
 
 theorem contains_of_mem {L : List String} {x : String} (h : x ∈ L) : L.contains x = true := by
   simpa using h
@@ -405,7 +418,7 @@ theorem pw_hit_after (ρ : SEnv) (pieces more : List (SExpr × SExpr)) (ifE cond
 
 theorem ret_name_val {P : Prog} {G : List (String × GVal)} {L : List String} {env : PyEnv} {n : String} {v : Val}
     (hL : L.contains n = true) :
-    ∀ g, execBody P g G L env [.ret (.name n)] = some (.ret v) → List.lookup n env = some v := by
+    ∀ g, execBody P g G L env [.ret (.name n)] = some (.ret v) → List.lookup n env = some v ∧ NotObj v := by
   intro g h
   cases g with
   | zero => simp [execBody] at h
@@ -422,14 +435,19 @@ theorem ret_name_val {P : Prog} {G : List (String × GVal)} {L : List String} {e
         rw [if_pos hL] at h
         cases hl : List.lookup n env with
         | none => simp [hl] at h
-        | some w => simp [hl] at h; rw [h]
+        | some w =>
+          rw [hl] at h
+          cases w with
+          | obj g' => simp at h
+          | num q => simp at h; subst h; exact ⟨rfl, notObj_num q⟩
+          | bool b => simp at h; subst h; exact ⟨rfl, notObj_bool b⟩
 
 /-- the value a translated branch contributes is the value the function returns when Python takes the branch:
 either the branch returns it, or it falls through and the accepted continuation returns it -/
-theorem branch_value (ih : Sound T P f) {G : List (String × GVal)} {L : List String}
+theorem branch_value (ih : Sound T P f) {G : List (String × GVal)} {I : Imps} {L : List String}
     {b rest : List PyStmt} {ctx ctxB : Syms} {env : PyEnv} {ρ : SEnv} {bE : SExpr} {g : Nat} {o : Outcome} {v : Val}
-    (hb : trLoop T P f G b [] b false ctx = .ok (bE, ctxB)) (hbo : branchOk rest b = true)
-    (hag : Agree ctx env ρ) (hdl : DomL ctx L) (hsub : ∀ x ∈ bodyAssigned b, L.contains x = true)
+    (hb : trLoop T P f G I b [] b false ctx = .ok (bE, ctxB)) (hbo : branchOk rest b = true)
+    (hag : Agree ctx env ρ) (hdl : DomL ctx L) (hi : ImpOk I env L) (hsub : ∀ x ∈ bodyAssigned b, L.contains x = true)
     (hex : execBody P g G L env b = some o)
     (hcont : match o with
              | .ret v' => v' = v
@@ -439,7 +457,7 @@ theorem branch_value (ih : Sound T P f) {G : List (String × GVal)} {L : List St
   | ret v' =>
     simp only at hcont
     subst hcont
-    exact ih.loop G L b [] b false ctx env ρ bE ctxB hb hag hdl hsub (by simp) g v' hex
+    exact ih.loop G I L b [] b false ctx env ρ bE ctxB hb hag hdl hi hsub (by simp) g v' hex
   | fall env' =>
     simp only at hcont
     obtain ⟨g2, hrest⟩ := hcont
@@ -448,7 +466,7 @@ theorem branch_value (ih : Sound T P f) {G : List (String × GVal)} {L : List St
     rcases hbo with hret | ⟨hao, hm⟩
     · exact absurd hex ((no_fall P g).1 _ _ _ _ _ hret)
     · obtain ⟨hag', n', hn', hlook⟩ :=
-        ih.fall G L b b false ctx env ρ bE ctxB hb (allAssign_of_assignOnly b hao) hag hdl hsub g env' hex
+        ih.fall G I L b b false ctx env ρ bE ctxB hb (allAssign_of_assignOnly b hao) hag hdl hi hsub g env' hex
       split at hm
       · -- nothing follows: the continuation cannot return
         cases g2 <;> simp [execBody] at hrest
@@ -459,20 +477,21 @@ theorem branch_value (ih : Sound T P f) {G : List (String × GVal)} {L : List St
         have hxn : x = n' := Option.some.inj hn'
         rw [← hxn] at hlook
         have hL : L.contains x = true := hsub x (lastAssigned_mem b x hla)
-        have hv := ret_name_val hL g2 hrest
-        obtain ⟨s', hs', hev⟩ := hag' x v hv
-        rw [hlook] at hs'
-        cases hs'
-        exact hev
+        obtain ⟨hv, hnov⟩ := ret_name_val hL g2 hrest
+        rcases hag' x v hv with ⟨g', hg'⟩ | ⟨s', hs', hev⟩
+        · exact absurd hg' (hnov g')
+        · rw [hlook] at hs'
+          cases hs'
+          exact hev
       · cases hm
 
 theorem sound_fall (ih : Sound T P f) :
-    ∀ G L body rem isElif ctx env ρ s ctx',
-    trLoop T P (f+1) G body [] rem isElif ctx = .ok (s, ctx') → allAssign rem = true →
-    Agree ctx env ρ → DomL ctx L → (∀ x ∈ bodyAssigned rem, L.contains x = true) →
+    ∀ G I L body rem isElif ctx env ρ s ctx',
+    trLoop T P (f+1) G I body [] rem isElif ctx = .ok (s, ctx') → allAssign rem = true →
+    Agree ctx env ρ → DomL ctx L → ImpOk I env L → (∀ x ∈ bodyAssigned rem, L.contains x = true) →
     ∀ f2 env', execBody P f2 G L env rem = some (.fall env') →
     Agree ctx' env' ρ ∧ ∃ n, lastAssigned body = some n ∧ List.lookup n ctx' = some s := by
-  intro G L body rem isElif ctx env ρ s ctx' h hall hag hdl hsub f2 env' hpy
+  intro G I L body rem isElif ctx env ρ s ctx' h hall hag hdl hi hsub f2 env' hpy
   cases f2 with
   | zero => simp [execBody] at hpy
   | succ g =>
@@ -510,9 +529,10 @@ theorem sound_fall (ih : Sound T P f) :
         | some ve =>
           rw [he] at hpy
           simp only at hpy
-          have hve := ih.expr _ _ _ _ _ _ _ hse hag hdl _ _ he
-          exact ih.fall _ _ _ _ _ _ _ _ _ _ h hall (hag.cons x se ve hve)
-            (hdl.cons x se (hsub x (by simp [stmtAssigned]))) (fun y hy => hsub y (by simp [hy])) _ _ hpy
+          have hve := ih.expr _ _ _ _ _ _ _ _ hse hag hdl hi _ _ he
+          exact ih.fall _ _ _ _ _ _ _ _ _ _ _ h hall (hag.cons x se ve hve)
+            (hdl.cons x se (hsub x (by simp [stmtAssigned]))) (hi.cons x ve (evalExpr_notObj he))
+            (fun y hy => hsub y (by simp [hy])) _ _ hpy
     | tupleAssign _ _ => simp [allAssign] at hall
     | augAssign _ _ _ => simp [allAssign] at hall
     | ifs _ _ _ => simp [allAssign] at hall
@@ -520,14 +540,17 @@ theorem sound_fall (ih : Sound T P f) :
     | retNone => simp [allAssign] at hall
     | skip => simp [allAssign] at hall
     | unhandled => simp [allAssign] at hall
+    | multiAssign _ _ => simp [allAssign] at hall
+    | unpackAssign _ _ => simp [allAssign] at hall
+    | importS _ => simp [allAssign] at hall
 
 theorem sound_loop (hT : TablesOk T) (ih : Sound T P f) :
-    ∀ G L body pieces rem isElif ctx env ρ s ctx',
-    trLoop T P (f+1) G body pieces rem isElif ctx = .ok (s, ctx') →
-    Agree ctx env ρ → DomL ctx L → (∀ x ∈ bodyAssigned rem, L.contains x = true) →
+    ∀ G I L body pieces rem isElif ctx env ρ s ctx',
+    trLoop T P (f+1) G I body pieces rem isElif ctx = .ok (s, ctx') →
+    Agree ctx env ρ → DomL ctx L → ImpOk I env L → (∀ x ∈ bodyAssigned rem, L.contains x = true) →
     (∀ p ∈ pieces, evalS ρ p.2 = some (.bool false)) →
     ∀ f2 v, execBody P f2 G L env rem = some (.ret v) → evalS ρ s = some v := by
-  intro G L body pieces rem isElif ctx env ρ s ctx' h hag hdl hsub hpf f2 v hpy
+  intro G I L body pieces rem isElif ctx env ρ s ctx' h hag hdl hi hsub hpf f2 v hpy
   cases f2 with
   | zero => simp [execBody] at hpy
   | succ g =>
@@ -552,9 +575,9 @@ theorem sound_loop (hT : TablesOk T) (ih : Sound T P f) :
       | some ve =>
         rw [he] at hpy
         simp only at hpy
-        have hve := ih.expr _ _ _ _ _ _ _ hse hag hdl _ _ he
-        exact ih.loop _ _ _ _ _ _ _ _ _ _ _ h (hag.cons x se ve hve)
-          (hdl.cons x se (hsubst x (by simp [stmtAssigned]))) hsubrest hpf _ _ hpy
+        have hve := ih.expr _ _ _ _ _ _ _ _ hse hag hdl hi _ _ he
+        exact ih.loop _ _ _ _ _ _ _ _ _ _ _ _ h (hag.cons x se ve hve)
+          (hdl.cons x se (hsubst x (by simp [stmtAssigned]))) (hi.cons x ve (evalExpr_notObj he)) hsubrest hpf _ _ hpy
     | tupleAssign xs es =>
       simp only [trLoop] at h
       rw [execStmt] at hpy
@@ -571,11 +594,11 @@ theorem sound_loop (hT : TablesOk T) (ih : Sound T P f) :
         | some vs =>
           rw [hes] at hpy
           simp only at hpy
-          have hall := ih.args _ _ _ _ _ _ _ hss hag hdl
+          have hall := ih.args _ _ _ _ _ _ _ _ hss hag hdl hi
           have hvals := args_vals P G L env ρ g es ss vs hall hes
-          exact ih.loop _ _ _ _ _ _ _ _ _ _ _ h (agree_bindAll xs ss vs ctx env hag hvals)
+          exact ih.loop _ _ _ _ _ _ _ _ _ _ _ _ h (agree_bindAll xs ss vs ctx env hag hvals)
             (domL_bindAll xs ss ctx hdl (fun x hx => hsubst x (by simpa [stmtAssigned] using hx)))
-            hsubrest hpf _ _ hpy
+            (impOk_setAll xs vs env hi (evalArgs_notObj hes)) hsubrest hpf _ _ hpy
     | augAssign x op e =>
       simp only [trLoop] at h
       rw [hT.stmtRefused] at h
@@ -584,12 +607,44 @@ theorem sound_loop (hT : TablesOk T) (ih : Sound T P f) :
       simp only [trLoop] at h
       rw [hT.stmtRefused] at h
       simp at h
+    | multiAssign xs e =>
+      simp only [trLoop] at h
+      rw [bind_ok] at h
+      obtain ⟨se, hse, h⟩ := h
+      rw [hT.chainAll] at h
+      simp only [↓reduceIte] at h
+      rw [execStmt] at hpy
+      cases he : evalExpr P g G L env e with
+      | none => simp [he] at hpy
+      | some ve =>
+        rw [he] at hpy
+        simp only at hpy
+        have hve := ih.expr _ _ _ _ _ _ _ _ hse hag hdl hi _ _ he
+        exact ih.loop _ _ _ _ _ _ _ _ _ _ _ _ h (agree_bindAll xs _ _ ctx env hag (all2_replicate hve xs))
+          (domL_bindAll xs _ ctx hdl (fun x hx => hsubst x (by simpa [stmtAssigned] using hx)))
+          (impOk_setAll xs _ env hi (fun w hw => by
+            obtain ⟨_, _, rfl⟩ := List.mem_map.mp hw
+            exact evalExpr_notObj he)) hsubrest hpf _ _ hpy
+    | unpackAssign xs e =>
+      simp only [trLoop] at h
+      rw [hT.unpackRefused] at h
+      simp at h
+    | importS items =>
+      simp only [trLoop] at h
+      rw [bind_ok] at h
+      obtain ⟨⟨c2, I2⟩, himp, h⟩ := h
+      simp only at h
+      rw [execStmt] at hpy
+      simp only at hpy
+      obtain ⟨a1, d1, i1⟩ := impAll_inv hT.importsStrict items ctx c2 I I2 env himp hag hdl hi
+        (fun x hx => hsubst x (by simpa [stmtAssigned] using hx))
+      exact ih.loop _ _ _ _ _ _ _ _ _ _ _ _ h a1 d1 i1 hsubrest hpf _ _ hpy
     | retNone => simp [trLoop] at h
     | skip =>
       simp only [trLoop] at h
       rw [execStmt] at hpy
       simp only at hpy
-      exact ih.loop _ _ _ _ _ _ _ _ _ _ _ h hag hdl hsubrest hpf _ _ hpy
+      exact ih.loop _ _ _ _ _ _ _ _ _ _ _ _ h hag hdl hi hsubrest hpf _ _ hpy
     | ret e =>
       simp only [trLoop] at h
       rw [bind_ok] at h
@@ -601,7 +656,7 @@ theorem sound_loop (hT : TablesOk T) (ih : Sound T P f) :
         rw [he] at hpy
         simp only [Option.some.injEq, Outcome.ret.injEq] at hpy
         subst hpy
-        have hve := ih.expr _ _ _ _ _ _ _ hse hag hdl _ _ he
+        have hve := ih.expr _ _ _ _ _ _ _ _ hse hag hdl hi _ _ he
         split at h
         · rw [pure_ok] at h
           cases h
@@ -628,7 +683,7 @@ theorem sound_loop (hT : TablesOk T) (ih : Sound T P f) :
       | some cv =>
         rw [hc] at hpy
         simp only at hpy
-        have hvc := ih.expr _ _ _ _ _ _ _ hcond hag hdl _ _ hc
+        have hvc := ih.expr _ _ _ _ _ _ _ _ hcond hag hdl hi _ _ hc
         obtain ⟨b, hbv⟩ := boolSorted_val hbs hvc
         subst hbv
         cases b with
@@ -639,16 +694,16 @@ theorem sound_loop (hT : TablesOk T) (ih : Sound T P f) :
           | some o =>
             rw [ht] at hpy
             have hife : evalS ρ ifE = some v := by
-              refine branch_value ih hb hbo_t hag hdl hsub_t ht ?_
+              refine branch_value ih hb hbo_t hag hdl hi hsub_t ht ?_
               cases o with
               | ret v' => simpa using hpy
               | fall env' => exact ⟨_, hpy⟩
             have hne1 : pieces ++ [(ifE, cond)] ≠ [] := by simp
             rcases hcases with ⟨_, h'⟩ | ⟨c2, t2, e2, _, h'⟩ | ⟨_, _, _, elseE, ctxE, _, hr⟩
-            · obtain ⟨more, hm⟩ := trLoop_shape T P _ _ _ _ _ _ _ _ _ hne1 h'
+            · obtain ⟨more, hm⟩ := trLoop_shape T P _ _ _ _ _ _ _ _ _ _ hne1 h'
               rw [hm, pw_hit_after ρ pieces more ifE cond hpf hvc]
               exact hife
-            · obtain ⟨more, hm⟩ := trLoop_shape T P _ _ _ _ _ _ _ _ _ hne1 h'
+            · obtain ⟨more, hm⟩ := trLoop_shape T P _ _ _ _ _ _ _ _ _ _ hne1 h'
               rw [hm, pw_hit_after ρ pieces more ifE cond hpf hvc]
               exact hife
             · cases hr
@@ -670,7 +725,7 @@ theorem sound_loop (hT : TablesOk T) (ih : Sound T P f) :
             | succ g =>
               rw [execBody] at hpy
               simp only at hpy
-              exact ih.loop _ _ _ _ _ _ _ _ _ _ _ h' hag hdl hsubrest hpf1 _ _ hpy
+              exact ih.loop _ _ _ _ _ _ _ _ _ _ _ _ h' hag hdl hi hsubrest hpf1 _ _ hpy
           · subst he
             cases hx : execBody P g G L env [PyStmt.ifs c2 t2 e2] with
             | none => simp [hx] at hpy
@@ -687,13 +742,13 @@ theorem sound_loop (hT : TablesOk T) (ih : Sound T P f) :
                 rcases List.mem_append.mp hx2 with hx2 | hx2
                 · exact hsub_e x (by rw [bodyAssigned_cons]; exact List.mem_append_left _ hx2)
                 · exact hsubrest x hx2
-              exact ih.loop _ _ _ _ _ _ _ _ _ _ _ h' hag hdl hsub2 hpf1 _ _ hfull
+              exact ih.loop _ _ _ _ _ _ _ _ _ _ _ _ h' hag hdl hi hsub2 hpf1 _ _ hfull
           · cases he : execBody P g G L env e with
             | none => simp [he] at hpy
             | some o =>
               rw [he] at hpy
               have helse : evalS ρ elseE = some v := by
-                refine branch_value ih hb2 (hfe hT.fallChecked) hag hdl hsub_e he ?_
+                refine branch_value ih hb2 (hfe hT.fallChecked) hag hdl hi hsub_e he ?_
                 cases o with
                 | ret v' => simpa using hpy
                 | fall env' => exact ⟨_, hpy⟩
@@ -701,47 +756,89 @@ theorem sound_loop (hT : TablesOk T) (ih : Sound T P f) :
               rw [evalS_pwOf_skip ρ _ _ hpf1, evalS_pwOf_hit ρ _ _ _ (by simp [evalS])]
               exact helse
 
+theorem lookup_zip_val {β} (n : String) : ∀ (ps : List String) (vs : List β) {x : β},
+    List.lookup n (ps.zip vs) = some x → x ∈ vs
+  | [], _, _, h => by simp at h
+  | _ :: _, [], _, h => by simp at h
+  | p :: ps, v :: vs, x, h => by
+    simp only [List.zip_cons_cons, lookup_cons] at h
+    by_cases hn : n = p
+    · simp only [hn, ↓reduceIte, Option.some.injEq] at h
+      simp [h]
+    · simp only [hn, ↓reduceIte] at h
+      exact List.mem_cons_of_mem _ (lookup_zip_val n ps vs h)
+
 theorem callFn_exec {P : Prog} {f2 : Nat} {d : FnDef} {vs : List Val} {v : Val} (h : callFn P f2 d vs = some v) :
-    ∃ g, execBody P g d.globals d.locals (d.params.zip vs) d.body = some (.ret v) := by
+    (∃ g, execBody P g d.globals d.locals (d.params.zip vs) d.body = some (.ret v)) ∧ (∀ w ∈ vs, NotObj w) := by
   cases f2 with
   | zero => simp [callFn] at h
   | succ g =>
     rw [callFn] at h
     split at h
     · cases h
-    · refine ⟨g, ?_⟩
-      split at h
-      · rename_i v' hv
-        cases h
-        exact hv
-      · cases h
+    · rename_i hcond
+      refine ⟨⟨g, ?_⟩, ?_⟩
+      · split at h
+        · rename_i v' hv
+          cases h
+          exact hv
+        · cases h
+      · intro w hw g' hg'
+        subst hg'
+        apply hcond
+        simp only [Bool.or_eq_true]
+        exact Or.inr (List.any_eq_true.mpr ⟨_, hw, rfl⟩)
 
 theorem sound_fnPlain_core (ih : Sound T P f) (d : FnDef) (e : SExpr) (c' : Syms)
-    (he : trLoop T P f d.globals d.body [] d.body false (d.params.map (fun p => (p, SExpr.sym p))) = .ok (e, c'))
+    (he : trLoop T P f d.globals [] d.body [] d.body false (d.params.map (fun p => (p, SExpr.sym p))) = .ok (e, c'))
     (f2 : Nat) (vs : List Val) (v : Val) (hpy : callFn P f2 d vs = some v)
     (ρ : SEnv) (hρ : ∀ n x, List.lookup n (d.params.zip vs) = some x → ρ n = some x) : evalS ρ e = some v := by
-  obtain ⟨g, hex⟩ := callFn_exec hpy
-  refine ih.loop d.globals d.locals d.body [] d.body false _ (d.params.zip vs) ρ e c' he ?_ ?_ ?_
+  obtain ⟨⟨g, hex⟩, hno⟩ := callFn_exec hpy
+  refine ih.loop d.globals [] d.locals d.body [] d.body false _ (d.params.zip vs) ρ e c' he ?_ ?_ ?_ ?_
     (by simp) g v hex
   · intro n x hn
     have hmem := lookup_zip_mem n d.params vs hn
-    exact ⟨.sym n, lookup_map_sym_of_mem n d.params hmem, by simpa [evalS] using hρ n x hn⟩
+    exact Or.inr ⟨.sym n, lookup_map_sym_of_mem n d.params hmem, by simpa [evalS] using hρ n x hn⟩
   · intro n s hn
     obtain ⟨_, hmem⟩ := lookup_map_sym n d.params hn
     exact contains_of_mem (by simp [FnDef.locals, hmem])
+  · refine ⟨?_, by intro p g hp; simp at hp⟩
+    intro p g hp
+    exact absurd rfl (hno _ (lookup_zip_val p d.params vs hp) g)
   · intro x hx
     exact contains_of_mem (by simp [FnDef.locals, hx])
 
-theorem sound_fnPlain (ih : Sound T P f) :
+theorem fnToSympy_inv (hT : TablesOk T) {d : FnDef} {margs : Option (List SExpr)} {s : SExpr}
+    (h : fnToSympy T P (f+1) d margs = .ok s) :
+    ∃ e c', trLoop T P f d.globals [] d.body [] d.body false (d.params.map (fun p => (p, SExpr.sym p))) = .ok (e, c') ∧
+      ((margs = none ∨ margs = some []) → s = e) ∧
+      (∀ m ms, margs = some (m :: ms) → (m :: ms).length = d.params.length ∧ s = applySubst T (d.params.zip (m :: ms)) e) := by
+  rw [fnToSympy] at h
+  rw [hT.sigStrict] at h
+  simp only [Bool.true_and, ↓reduceIte] at h
+  split at h
+  · cases h
+  · rw [bind_ok] at h
+    obtain ⟨⟨e, c'⟩, he, h⟩ := h
+    refine ⟨e, c', he, ?_, ?_⟩
+    · intro hm
+      rcases hm with hm | hm <;> subst hm <;> simp only [pure_ok] at h <;> exact h.symm
+    · intro m ms hm
+      subst hm
+      simp only at h
+      split at h
+      · cases h
+      · rename_i hlen
+        rw [pure_ok] at h
+        exact ⟨by simpa using hlen, h.symm⟩
+
+theorem sound_fnPlain (hT : TablesOk T) (ih : Sound T P f) :
     ∀ d margs s, fnToSympy T P (f+1) d margs = .ok s → (margs = none ∨ margs = some []) →
     ∀ f2 vs v, callFn P f2 d vs = some v →
     ∀ ρ : SEnv, (∀ n x, List.lookup n (d.params.zip vs) = some x → ρ n = some x) → evalS ρ s = some v := by
   intro d margs s h hm f2 vs v hpy ρ hρ
-  rw [fnToSympy] at h
-  rw [bind_ok] at h
-  obtain ⟨⟨e, c'⟩, he, h⟩ := h
-  have hs : s = e := by
-    rcases hm with hm | hm <;> subst hm <;> simp only [pure_ok] at h <;> exact h.symm
+  obtain ⟨e, c', he, hplain, _⟩ := fnToSympy_inv hT h
+  have hs : s = e := hplain hm
   subst hs
   exact sound_fnPlain_core ih d s c' he f2 vs v hpy ρ hρ
 
@@ -750,14 +847,9 @@ theorem sound_fnSubst (hT : TablesOk T) (ih : Sound T P f) :
     ∀ f2 vs v, callFn P f2 d vs = some v →
     ∀ ρ' : SEnv, All2 (fun m x => evalS ρ' m = some x) (m :: ms) vs → evalS ρ' s = some v := by
   intro d m ms s h f2 vs v hpy ρ' hall
-  rw [fnToSympy] at h
-  rw [bind_ok] at h
-  obtain ⟨⟨e, c'⟩, he, h⟩ := h
-  simp only at h
-  split at h
-  · cases h
-  · rw [pure_ok] at h
-    subst h
+  obtain ⟨e, c', he, _, hsub⟩ := fnToSympy_inv hT h
+  obtain ⟨_, hs⟩ := hsub m ms rfl
+  · subst hs
     unfold applySubst
     rw [hT.substSim]
     simp only [↓reduceIte]
@@ -776,6 +868,6 @@ theorem sound_all {T : Tables} {P : Prog} (hT : TablesOk T) : ∀ f, Sound T P f
   induction f with
   | zero => exact sound_zero T P
   | succ f ih =>
-    exact ⟨sound_expr hT ih, sound_args ih, sound_loop hT ih, sound_fall ih, sound_fnPlain ih, sound_fnSubst hT ih⟩
+    exact ⟨sound_expr hT ih, sound_args ih, sound_loop hT ih, sound_fall ih, sound_fnPlain hT ih, sound_fnSubst hT ih⟩
 
 end Mxl.C06
